@@ -646,7 +646,8 @@ def r10_b(ctx):
         elif c0 != 'Comment' and 'Comment' in cats and not sil:
             # a % inside another token: only as the second character after a backslash, or inside a comment
             first = A.ccname(rec['window'][1])
-            ok = (first == 'Escape' and e[3] == 2) or int(com) in kinds
+            second_only = e[3] == 2 and len(e[6]) == 2 and 'Comment' not in _ccs(A, e[6][0])
+            ok = (first == 'Escape' and second_only) or int(com) in kinds
             rr.ob(ok, {'rule': e[1], 'kinds': _kind_names(A, tok), 'first': first, 'moved': str(e[3])})
             if not ok:
                 rr.fail(_mk('R10.b', fd, 'rule %s: token of kind %s may contain an unescaped %%' % (e[1], _kind_names(A, tok)),
@@ -694,23 +695,23 @@ def r12_a(ctx):
                 rr.fail(_mk('R12.a', fd, 'rule %s: $ at the cursor -> %s, length %s, next may be %s' % (
                     e[1], _kind_names(A, tok), e[3], sorted(nxt & {'MathSwitch'})), why, rec))
         elif c0 == 'Escape':
-            if e[3] == 2 and len(cats - {'Escape'}) == 1 or (e[3] == 2 and cats == {'Escape'}):
-                second = next(iter(cats - {'Escape'})) if cats - {'Escape'} else 'Escape'
-                if ('Escape', second) in asym:
-                    n += 1
-                    ok = kinds == {int(TC[asym[('Escape', second)]])}
-                    rr.ob(ok, {'window': '\\' + second, 'kinds': _kind_names(A, tok)})
-                    if not ok:
-                        rr.fail(_mk('R12.a', fd, 'rule %s: backslash+%s -> %s' % (e[1], second, _kind_names(A, tok)),
-                                    'backslash followed by %s must be the %s token' % (second, asym[('Escape', second)]), rec))
-                elif second == 'MathSwitch':
-                    n += 1
-                    sw = {int(TC[k]) for k in need}
-                    ok = not (kinds & sw)
-                    rr.ob(ok, {'window': '\\$', 'kinds': _kind_names(A, tok)})
-                    if not ok:
-                        rr.fail(_mk('R12.a', fd, 'rule %s: escaped $ -> %s' % (e[1], _kind_names(A, tok)),
-                                    'an escaped \\$ is tokenized as a math switch', rec))
+            if e[3] == 2 and len(e[6]) == 2:
+                for second in sorted(_ccs(A, e[6][1])):
+                    if ('Escape', second) in asym:
+                        n += 1
+                        ok = kinds == {int(TC[asym[('Escape', second)]])}
+                        rr.ob(ok, {'window': '\\' + second, 'kinds': _kind_names(A, tok)})
+                        if not ok:
+                            rr.fail(_mk('R12.a', fd, 'rule %s: backslash+%s -> %s' % (e[1], second, _kind_names(A, tok)),
+                                        'backslash followed by %s must be the %s token' % (second, asym[('Escape', second)]), rec))
+                    elif second == 'MathSwitch':
+                        n += 1
+                        sw = {int(TC[k]) for k in need}
+                        ok = not (kinds & sw)
+                        rr.ob(ok, {'window': '\\$', 'kinds': _kind_names(A, tok)})
+                        if not ok:
+                            rr.fail(_mk('R12.a', fd, 'rule %s: escaped $ -> %s' % (e[1], _kind_names(A, tok)),
+                                        'an escaped \\$ is tokenized as a math switch', rec))
             elif e[3] == 1:
                 bad = nxt & {'BracketBegin', 'BracketEnd', 'ParenBegin', 'ParenEnd', 'MathSwitch'}
                 ok = not bad
